@@ -129,9 +129,15 @@ func NewSymTab(seed int64, moduleAddr []byte, prefix string) *SymTab {
 	if seed%5 == 0 && seed != 0 {
 		t.Unit = big.NewInt(7)
 	}
-	t.NonceBase = binary.BigEndian.Uint64(prf(seed, "noncebase", 8)) >> 2
-	if seed%3 == 2 {
-		t.NonceBase = (1 << 32) - 2 // straddle 2^32
+	// nonce base: real chains start at 0 (odd seeds, incl. the default); even seeds use a large random base
+	// or one that straddles 2^32
+	switch {
+	case seed%2 != 0:
+		t.NonceBase = 0
+	case seed%4 == 0:
+		t.NonceBase = (1 << 32) - 2
+	default:
+		t.NonceBase = binary.BigEndian.Uint64(prf(seed, "noncebase", 8)) >> 2
 	}
 	t.Junk12 = prf(seed, "junk12", 12)
 	t.Junk12[0] |= 1
@@ -156,7 +162,10 @@ func NewSymTab(seed int64, moduleAddr []byte, prefix string) *SymTab {
 	t.domRev[4] = "NOBLE"
 	for i, s := range domSymbols {
 		v := binary.BigEndian.Uint32(prf(seed, "dom:"+s, 4))
-		if seed%3 == 1 { // adversarial family: share byte patterns, contain '/', differ only in high bytes
+		if i == 0 {
+			v = 0 // Ethereum's CCTP domain is 0: zero-valued fields are a realistic corner (proto3 omits them)
+		}
+		if seed%3 == 2 { // adversarial family: share byte patterns, contain '/', differ only in high bytes
 			v = []uint32{0x2f2f2f2f, 0x2f2f2f00, 0x002f2f2f, 0x01000004, 0x04000000}[i]
 		}
 		for v == 4 || t.domRev[v] != "" {
